@@ -80,10 +80,15 @@ extern "C" int pthread_mutex_unlock(pthread_mutex_t * m)
 }
 
 // ---------------------------------------------------------------- harness bodies
+static bool DRAW_POINTS = false; // L3: every deviate request is a scheduling point (the user's deviate source is a seam)
 struct Rnd : bxdecay0::i_random {
   uint64_t phase = 1;
   size_t i = 0;
-  double operator()() override { return vx::stream_value(phase, i++); }
+  double operator()() override
+  {
+    if (DRAW_POINTS) sch::point(50);
+    return vx::stream_value(phase, i++);
+  }
 };
 
 static double f_smooth(double x, void *) { return std::exp(-x * x); }
@@ -281,6 +286,13 @@ int main(int argc, char ** argv)
   else if (HARNESS == "l2a") { NT = 2; GEN[0] = {true, "Cd106", 0, 10}; GEN[1] = {false, "Co60", 0, 0}; }
   else if (HARNESS == "l2b") { NT = 2; GEN[0] = {true, "Cd106", 0, 10}; GEN[1] = {true, "Ru96", 0, 10}; }
   else if (HARNESS == "l2c") { NT = 2; GEN[0] = {true, "Nd148", 5, 4}; GEN[1] = {true, "Nd148", 5, 13}; }  // 7 keV available: a handful of quadratures each
+  // L3: two generators that go through the same helper routines (1st-forbidden-unique beta shapes, conversion
+  // transitions, pairs), preemption possible at every deviate request
+  else if (HARNESS == "l3a") { NT = 2; DRAW_POINTS = true; GEN[0] = {false, "Sr90", 0, 0}; GEN[1] = {false, "K42", 0, 0}; }
+  else if (HARNESS == "l3b") { NT = 2; DRAW_POINTS = true; GEN[0] = {false, "Cs137+Ba137m", 0, 0}; GEN[1] = {false, "Y90", 0, 0}; }
+  else if (HARNESS == "l3c") { NT = 2; DRAW_POINTS = true; GEN[0] = {false, "Co60", 0, 0}; GEN[1] = {false, "Bi207+Pb207m", 0, 0}; }
+  else if (HARNESS == "l3d") { NT = 2; DRAW_POINTS = true; GEN[0] = {true, "Mo100", 0, 1}; GEN[1] = {true, "Nd150", 2, 1}; }
+  else if (HARNESS == "l3e") { NT = 2; DRAW_POINTS = true; GEN[0] = {false, "Bi214+Po214", 0, 0}; GEN[1] = {false, "Tl208", 0, 0}; }
   else if (HARNESS == "l2d") { NT = 3; GEN[0] = {true, "Cd106", 0, 10}; GEN[1] = {true, "Ru96", 0, 10}; GEN[2] = {false, "Bi207+Pb207m", 0, 0}; }
   else return 2;
   LOG = sch::shared_log();
